@@ -443,6 +443,62 @@ def r6_iso(chk, F, R):
     chk.info("the default Display omits the fraction when ns == 0 whereas ISO8601 (non-optional %f) always prints it")
 
 
+def r8_constructors(chk, F):
+    """Formatter's constructors: new() prints the epoch as given with a zero offset; with_timezone() prints the local time
+    epoch + offset and records that offset (what %z writes and what Format::parse subtracts again); to_time_scale() is new()
+    of the converted epoch."""
+    from ..epochalg import EpochAlg
+    rule = "C19.R8"
+    eng, D = ctx(F)
+    A = EpochAlg(F, eng, D)
+
+    def fields(v):
+        names = eng.types[v.tid]["variants"][0]["fields"]
+        return {n: v.fs[i] for i, n in enumerate(names)}
+    for name in ("new", "with_timezone", "to_time_scale"):
+        fn = F.find1(self_ty="Formatter", name=name, trait="")
+        pn = [fn["locals"][i + 1].get("name") for i in range(fn["arg_count"])]
+        A.install(duration_algebra=True, opaque_conv=True)
+        finals, args = D.run(fn, interior=True)
+        A.uninstall()
+        ok = bool(finals)
+        why = []
+        for st in finals:
+            if st.end != "return" or not isinstance(st.ret, Struct):
+                ok = False
+                why.append("path ends in %s" % st.end)
+                continue
+            f_ = fields(st.ret)
+            ep_in = args[pn.index("epoch")]
+            fmt_in = args[pn.index("format")]
+            if f_["format"] is not fmt_in:
+                ok = False
+                why.append("format field is not the argument")
+            Te, Ti = D.total(f_["epoch"].fs[0]), D.total(ep_in.fs[0])
+            To = D.total(f_["offset"])
+            st2 = st.clone()
+            D.close(st2, [x for x in (Te, Ti, To) if x is not None])
+            if name == "new":
+                good = D.implies_eq(st2, Te, Ti) and same_scale(eng, st, f_["epoch"].fs[1], ep_in.fs[1]) and D.implies_eq(st2, To, Lin.const(0))
+            elif name == "with_timezone":
+                off_in = args[pn.index("offset")]
+                Toi = D.total(off_in)
+                D.close(st2, [Toi])
+                good = D.implies_eq(st2, Te, Ti + Toi) and same_scale(eng, st, f_["epoch"].fs[1], ep_in.fs[1]) and D.implies_eq(st2, To, Toi)
+            else:
+                convs = [t for t in st.trace if isinstance(t, tuple) and t and t[0] == "conv-call"]
+                ts_in = args[pn.index("time_scale")]
+                good = D.implies_eq(st2, To, Lin.const(0)) and (
+                    (len(convs) == 1 and convs[0][1] is ep_in and same_scale(eng, st, convs[0][2], ts_in) and same_scale(eng, st, f_["epoch"].fs[1], ts_in)) or
+                    (len(convs) == 0 and same_scale(eng, st, ep_in.fs[1], ts_in) and D.implies_eq(st2, Te, Ti)))
+            if not good:
+                ok = False
+                why.append("fields do not match the constructor's contract")
+        chk.ob(rule, "Formatter::%s" % name, {"new": "epoch=arg,offset=0,format=arg", "with_timezone": "epoch=arg+offset,offset=arg,format=arg",
+                                              "to_time_scale": "epoch=conv(arg,ts),offset=0,format=arg"}[name], ok, "frame / operand flow", detail=None if ok else sorted(set(why)))
+    chk.floor(rule, "Formatter constructors", 3, 3)
+
+
 def variant_texts(F, eng, self_ty, trait):
     """text written by <self_ty as trait>::fmt for every variant of a field-less enum, read off the code -> {variant: text}"""
     from ..sym import St as _St, Ref as _Ref
@@ -715,5 +771,6 @@ def run(chk, F, tier):
     r4_invariant(chk, F)
     r6_iso(chk, F, R)
     r7_parse_agreement(chk, F, R)
+    r8_constructors(chk, F)
     chk.extra["engine_stats"] = dict(R.eng.stats)
     chk.assumptions.append("field sources (compute_gregorian, day_of_year, weekday, month_name, decompose) are uninterpreted here: C09/C16/C11/C20 judge them")
